@@ -46,6 +46,30 @@ _SCEN_ASSUME = ['scenario lookup (ScenarioManagerFactory.get_scenarios) returns 
                 'Python semantics of the subset (DESIGN 2.2.7); single-threaded']
 
 PROPS = {
+    'C19': dict(
+        mods=['contracts.c19_state'], k1=['InstanceManager._get_instance_state', 'bptk._set_state', 'InstanceManager.reconstruct_instance',
+                                          'Adapter.save_instance', 'Adapter.load_instance', 'Adapter.load_state'],
+        level='other', engines=['contracts.c19_roundtrip'],
+        harness='verif/native/c19_harness.py', harness_budget=(25, 120), always_harness=True,
+        explanation='BOUNDED core + proved capture/restore. Bounded (never counted as proved): decompress(compress(L)) == L executed exhaustively on the real '
+                    'statecompression functions for logs with steps "1.0".."n.0" and one non-empty key structure (the positive core of the format). '
+                    'Proved (K1): _get_instance_state snapshots the whole session dictionary (clock, both logs, all other keys) with the lock cleared and leaves '
+                    'the live session unchanged; bptk._set_state / reconstruct_instance install exactly the given dictionary and touch no other instance; '
+                    'ExternalStateAdapter.save_instance / load_instance / load_state compress / decompress both logs iff the adapter compresses and tolerate None',
+        assumptions=_SRV_ASSUME + ['copy.deepcopy returns an equal value; storage back ends (_save_instance / _load_instance) are trusted to store and return what they are given; jsonpickle round-trips JSON-able dicts up to float->string key conversion'],
+        not_decided=['the compressed format is lossy outside its positive core: recorded as known findings (steps without / with empty settings, start time or dt other than 1, key sets that differ between steps)']),
+    'C20': dict(
+        mods=['contracts.c19_state'], k1=['FileAdapter._load_instance', 'BptkServer._load_state_resource', 'InstanceManager.reconstruct_instance',
+                                          'InstanceManager._get_instance_state', 'bptk._set_state'],
+        level='proof', engines=['contracts.c19_roundtrip'],
+        harness='verif/native/c19_harness.py', harness_budget=(25, 120), always_harness=True,
+        explanation='fault-tolerance spine with a file-content fault model (absent / old / new / arbitrary bytes): FileAdapter._load_instance is proved TOTAL '
+                    '(every exception of open / read / jsonpickle / subscripts is caught, it returns an InstanceState or None); the start-up restore loop and '
+                    '/load-state are proved / checked to skip None entries; reconstruct_instance touches no other instance; capture and restore carry the whole '
+                    'session dictionary',
+        assumptions=_SRV_ASSUME + ['a crash leaves, per instance, a file that is absent, old, new or arbitrary bytes (sound over-approximation of any crash point)'],
+        not_decided=['NOT DECIDED: enumeration of crash points as such (replaced by the file-content fault model; the native harness enumerates crash points of generated histories)',
+                     'known finding: settings applied in earlier steps are not replayed after a restore (restore installs the dictionary and replays nothing)']),
     'C07': dict(
         mods=['contracts.c07_scenarios'], k1=K1_C07, level='proof',
         harness='verif/native/c09_harness.py', harness_budget=(25, 120),
